@@ -8,7 +8,7 @@ cp $wt/seed/patch.diff $wt/seed/meta.json $dst/ 2>/dev/null
 cp $wt/seed/demo.cpp $dst/ 2>/dev/null
 log=$dst/confirm.log; : > $log
 cd $wt
-sed -i "s#-I/tmp/wt/[A-Z0-9]*/include##" /dev/null; flags="-std=c++17"; grep -q "fsanitize" $wt/seed/meta.json 2>/dev/null && flags="-std=c++17 -fsanitize=address,undefined -g"
+flags="-std=c++17"; grep -q "fsanitize" $wt/seed/meta.json 2>/dev/null && flags="-std=c++17 -fsanitize=address,undefined -g"
 echo "== demo with change" >> $log
 clang++ $flags -I$wt/include seed/demo.cpp -o /tmp/wt/demo_$id.with >> $log 2>&1 && (ASAN_OPTIONS=detect_leaks=0 /tmp/wt/demo_$id.with >> $log 2>&1; echo "exit=$?" >> $log)
 with=$(tail -1 $log)
